@@ -83,7 +83,17 @@ TraceAUCHuge ==
              <<"C07.full_is_mann_whitney_with_huge_easy_counts",
                   e.exc # "" \/ (e.x[2] > 0 /\ REq(e.x, want))>>}))
 
-Next == TraceNew \/ TraceAUC \/ TraceAUCHuge
+(* history: the caller re-assigns the configuration attributes of a live object (as enum members  *)
+(* or as the plain strings the label type compares equal to)                                      *)
+TraceSetConfig ==
+  /\ IsEvent("SetConfig")
+  /\ LET e == Log[l]
+         o == [store[e.h] EXCEPT !.sc = e.sc, !.ec = e.ec]
+     IN /\ store' = (e.h :> o) @@ store
+        /\ Report(e, Failing({<<"C07.raised", e.exc = "">>,
+                              <<"C07.state_after_assigning_configuration", e.exc # "" \/ ObjOfRec(e.post) = o>>}))
+
+Next == TraceNew \/ TraceAUC \/ TraceAUCHuge \/ TraceSetConfig
 Spec == Init /\ [][Next]_vars
 AllConsumed == TLCGet("stats").diameter - 1 = Len(Log)
 =============================================================================
